@@ -24,6 +24,10 @@ def run_pair_case(case):
     out = dict(case)
     try:
         store = apicalls.arrays()
+        for cfg in (case["a"], case["b"], case.get("c") or {}):
+            if cfg.get("func_obj"):
+                apicalls.func_object(cfg["func_obj"])
+        obj0 = apicalls.objects_snapshot()
         ra = apicalls.make(case["a"], store)
         rb = apicalls.make(case["b"], store)
         ka, kb = apicalls.flox_keys(ra), apicalls.flox_keys(rb)
@@ -51,6 +55,7 @@ def run_pair_case(case):
             t3 = dask.compute(rc, ra, rb, scheduler="synchronous")
             out["together_equal"] = bool(out["together_equal"] and eq(t3[0], sc) and eq(t3[1], sa) and eq(t3[2], sb))
         out["args_unchanged"] = all(np.array_equal(store[k], v, equal_nan=True) for k, v in apicalls.arrays().items())
+        out["args_unchanged"] = bool(out["args_unchanged"] and obj0 == apicalls.objects_snapshot())
     except Exception as e:  # noqa: BLE001
         out.update(exc=type(e).__name__, msg=str(e)[:200])
     return out
@@ -68,7 +73,10 @@ reg0 = apicalls.registry_snapshot()
 events = []
 for idx in seq:
     cfg = calls[idx]
+    if cfg.get("func_obj"):
+        apicalls.func_object(cfg["func_obj"])
     before = {k: apicalls.digest_arr(v) for k, v in store.items()}
+    obj_before = apicalls.objects_snapshot()
     exp_before = None if cfg.get("expected") is None else list(cfg["expected"])
     try:
         r = apicalls.make(cfg, store)
@@ -78,7 +86,7 @@ for idx in seq:
     except Exception as e:
         dig = "EXC:" + type(e).__name__
     after = {k: apicalls.digest_arr(v) for k, v in store.items()}
-    events.append({"call": idx, "dig": dig, "args_unchanged": before == after and (exp_before is None or exp_before == list(cfg["expected"])),
+    events.append({"call": idx, "dig": dig, "args_unchanged": before == after and (exp_before is None or exp_before == list(cfg["expected"])) and obj_before == apicalls.objects_snapshot(),
                    "registry_unchanged": apicalls.registry_snapshot() == reg0})
 print("EVENTS " + json.dumps(events))
 '''
